@@ -18,6 +18,9 @@ use dmntk_feel::{AstNode, Name, Scope};
 use serde_json::json;
 use std::collections::BTreeSet;
 
+pub mod folded;
+pub mod positions;
+
 #[derive(Clone, Copy, PartialEq, Eq, Debug)]
 pub enum K {
   Num,
@@ -1010,10 +1013,17 @@ fn value_text(v: &Value) -> String {
 }
 
 fn judge_written_out(rep: &mut Report, model: &mut Model, family: &str, rows: Vec<(String, String, Case, Value)>) {
+  judge_written_out_with(rep, model, family, rows, &|_| true)
+}
+
+/// `with_model`: whether the case is compared with the Lean model too (the driver of this check has stubs for the
+/// built-in functions: a text that calls one is judged by its written-out value only)
+fn judge_written_out_with(rep: &mut Report, model: &mut Model, family: &str, rows: Vec<(String, String, Case, Value)>, with_model: &dyn Fn(&Case) -> bool) {
   // rows: (signature if the written-out value is missed, shown input, case, expectation)
-  let reqs: Vec<String> = rows.iter().map(|(_, _, c, _)| c.request.clone()).collect();
+  let reqs: Vec<String> = rows.iter().map(|(_, _, c, _)| if with_model(c) { c.request.clone() } else { "(c01 skip)".to_string() }).collect();
   let answers = model.ask_batch(&reqs);
   for ((sig, shown, c, expected), both) in rows.iter().zip(answers.iter()) {
+    let both = &if with_model(c) { both.clone() } else { "((unsupported) (unsupported))".to_string() };
     let want = match value_sexp(expected) {
       Some(s) => format!("(ok {} same)", s),
       None => continue,
@@ -1309,6 +1319,17 @@ fn partial_family(cfg: &Cfg, rep: &mut Report, model: &mut Model) {
   }
   rep.extra.insert("partial_cases".into(), json!(rows.len()));
   judge_written_out(rep, model, "partial", rows);
+}
+
+/// Family `partial-positions`: the implicit `partial` of a `for` occurring in every syntactic position of the body
+/// (module `positions`: compositions of one wrapper per child slot of every node kind, the expectation from an
+/// evaluator of its own; the node kinds reached are compared with `enum AstNode` of the source).
+fn partial_positions_family(cfg: &Cfg, rep: &mut Report, model: &mut Model) {
+  let sig = |pc: &positions::PosCase| {
+    let outer = pc.position.split(" > ").next().unwrap_or("").to_string();
+    format!("for: the body does not see the results of the iterations before it as `partial` when it occurs inside: {}", outer)
+  };
+  positions::run_positions(cfg, rep, model, "partial-positions", &[positions::Binder::Partial], &["partial"], &sig);
 }
 
 fn pv_text(v: &Pv) -> String {
@@ -1830,6 +1851,8 @@ pub fn run_with(cfg: &Cfg, property: &str) -> Report {
     feelsem_family(&mut rep, &mut model);
     bifshadow_family(cfg, &mut rep, &mut model);
     partial_family(cfg, &mut rep, &mut model);
+    partial_positions_family(cfg, &mut rep, &mut model);
+    folded::folded_family(cfg, &mut rep, &mut model);
     freenames_family(cfg, &mut rep, &mut model, &vars);
   }
   rep.extra.insert("unparsable_generated".into(), json!(unparsable));
